@@ -155,6 +155,14 @@ func Pattern(kind string, n int, k int) []byte {
 				b[i] = 0xAA
 			}
 		}
+	case "word": // the 16-bit value k repeated (big-endian): data values, not positions
+		for i := range b {
+			if i%2 == 0 {
+				b[i] = byte(k >> 8)
+			} else {
+				b[i] = byte(k)
+			}
+		}
 	case "onehot":
 		if k/8 < n {
 			b[k/8] = 1 << uint(k%8)
